@@ -16,6 +16,7 @@ package peersharing
 
 import (
 	"fmt"
+	"sync"
 
 	"github.com/blinklabs-io/gouroboros/protocol"
 )
@@ -26,6 +27,7 @@ type Client struct {
 	config          *Config
 	callbackContext CallbackContext
 	sharePeersChan  chan []PeerAddress
+	busyMutex       sync.Mutex
 }
 
 // NewClient returns a new PeerSharing client object
@@ -77,6 +79,10 @@ func (c *Client) GetPeers(amount uint8) ([]PeerAddress, error) {
 			"role", "client",
 			"connection_id", c.callbackContext.ConnectionId.String(),
 		)
+	// Only one request can be outstanding at a time, otherwise concurrent
+	// callers could receive each other's replies
+	c.busyMutex.Lock()
+	defer c.busyMutex.Unlock()
 	msg := NewMsgShareRequest(amount)
 	if err := c.SendMessage(msg); err != nil {
 		return nil, err
